@@ -5,6 +5,8 @@
 //        per case:     the pixel buffer is an exact-size heap block (plus padbytes of slack when
 //                      given: used only to look at what an over-reading writer produces),
 //                      the file <outdir>/<fmt>_<n>.bin is written, line "<path>" printed
+//   harness imgstack <fmt> <outdir> <w> <h> <stackbytes>
+//        one call of the writer on a thread whose stack has <stackbytes> bytes; prints the path of the file
 //   harness trace <outdir>
 //        stdin lines:  T <pname|-> { | <tname|-> op op ... }     one "|" group per thread; "||" instead of "|" first joins all
 //                      threads started so far (a new phase: later threads do not overlap earlier ones and may be given
@@ -21,6 +23,10 @@
 #include <cstdlib>
 #include <cstring>
 #include <iostream>
+#include <map>
+#include <memory>
+#include <mutex>
+#include <pthread.h>
 #include <sstream>
 #include <stdexcept>
 #include <string>
@@ -83,22 +89,76 @@ static int mainImg(const std::string &fmt, const std::string &outdir, size_t pad
   return 0;
 }
 
+// one writer call on a thread with a small stack: the image's rows are small, the whole output is several times the
+// stack (the row scratch buffer is alloca'd: it must not accumulate over the rows).  Component i of the buffer holds
+// (7 i + 3) mod 251 (bytes) / the bit pattern 0x3f800000 + i (floats).
+struct StackJob { std::string fmt, path; int w, h; int rc; };
+template <typename PIXEL_T, typename COMP_T, int PIXEL_COMP, typename W>
+static void stackImg(StackJob *j, W writer)
+{
+  const size_t n = (size_t)j->w * j->h;
+  PIXEL_T *buf = (PIXEL_T *)malloc(n * sizeof(PIXEL_T));
+  unsigned char *raw = (unsigned char *)buf;
+  for (size_t i = 0; i < n * PIXEL_COMP; ++i) {
+    if (sizeof(COMP_T) == 1) raw[i] = (unsigned char)((7 * i + 3) % 251);
+    else { uint32_t b = 0x3f800000u + (uint32_t)i; memcpy(raw + 4 * i, &b, 4); }
+  }
+  writer(j->path, j->w, j->h, (const PIXEL_T *)buf);
+  free(buf);
+  j->rc = 0;
+}
+static void *stackThread(void *p)
+{
+  StackJob *j = (StackJob *)p;
+  const std::string &fmt = j->fmt;
+  if (fmt == "PPM") stackImg<uint32_t, unsigned char, 4>(j, utility::writePPM);
+  else if (fmt == "PGM") stackImg<uint32_t, unsigned char, 4>(j, utility::writePGM);
+  else if (fmt == "PFM1") stackImg<float, float, 1>(j, utility::writePFM<float>);
+  else if (fmt == "PFM3") stackImg<vec3f, float, 3>(j, utility::writePFM<vec3f>);
+  else if (fmt == "PFM3a") stackImg<vec3fa, float, 4>(j, utility::writePFM<vec3fa>);
+  else if (fmt == "PFM4") stackImg<vec4f, float, 4>(j, utility::writePFM<vec4f>);
+  return nullptr;
+}
+static int mainImgStack(const std::string &fmt, const std::string &outdir, int w, int h, size_t stackBytes)
+{
+  StackJob j{fmt, outdir + "/" + fmt + "_stack.bin", w, h, 1};
+  pthread_attr_t a; pthread_attr_init(&a);
+  if (pthread_attr_setstacksize(&a, stackBytes) != 0) { std::cout << "SKIP stack size" << std::endl; return 0; }
+  pthread_t t;
+  if (pthread_create(&t, &a, stackThread, &j) != 0) { std::cout << "SKIP create" << std::endl; return 0; }
+  pthread_join(t, nullptr);
+  std::cout << j.path << std::endl;
+  return j.rc;
+}
+
 // ------------------------------------------------------------------------ tracing
+// Names and categories are "string literals": one fixed address per distinct text for the whole process, so that a
+// script that repeats a name passes the SAME pointer again (the recorder's string cache is keyed by pointer) and a
+// name that equals a category is the same pointer too.  Entries are never freed: a pointer designates one text for ever.
+static std::mutex g_poolMutex;
+static std::map<std::string, std::unique_ptr<std::string>> g_pool;
+static const char *literal(const std::string &text)
+{
+  std::lock_guard<std::mutex> lock(g_poolMutex);
+  auto &e = g_pool[text];
+  if (!e) e.reset(new std::string(text));
+  return e->c_str();
+}
+
 struct ThreadScript { std::string tname; std::vector<std::string> ops; std::string sizes; };
 
 static void runThread(ThreadScript *ts)
 {
-  // every name/category needs an address that stays valid and distinct (the string cache is keyed by pointer)
   std::vector<std::vector<std::string>> f;
   f.reserve(ts->ops.size());
   for (auto &op : ts->ops) f.push_back(split(op, ':'));
   if (ts->tname != "-") tracing::setThreadName(ts->tname.c_str());
   for (auto &o : f) {
     const std::string &k = o[0];
-    if (k == "B") tracing::beginEvent(o[1].c_str(), o[2] == "-" ? nullptr : o[2].c_str());
+    if (k == "B") tracing::beginEvent(literal(o[1]), o[2] == "-" ? nullptr : literal(o[2]));
     else if (k == "E") tracing::endEvent();
-    else if (k == "M") tracing::setMarker(o[1].c_str(), o[2] == "-" ? nullptr : o[2].c_str());
-    else if (k == "C") tracing::setCounter(o[1].c_str(), (uint64_t)std::stoull(o[2]));
+    else if (k == "M") tracing::setMarker(literal(o[1]), o[2] == "-" ? nullptr : literal(o[2]));
+    else if (k == "C") tracing::setCounter(literal(o[1]), (uint64_t)std::stoull(o[2]));
     else if (k == "S") std::this_thread::sleep_for(std::chrono::microseconds(150));
   }
   std::ostringstream s, tm;
@@ -162,6 +222,7 @@ static int mainTrace(const std::string &outdir)
 int main(int argc, char **argv)
 {
   if (argc >= 4 && std::string(argv[1]) == "img") return mainImg(argv[2], argv[3], argc > 4 ? (size_t)atol(argv[4]) : 0);
+  if (argc >= 7 && std::string(argv[1]) == "imgstack") return mainImgStack(argv[2], argv[3], atoi(argv[4]), atoi(argv[5]), (size_t)atol(argv[6]));
   if (argc >= 3 && std::string(argv[1]) == "trace") return mainTrace(argv[2]);
   return 2;
 }
